@@ -1,90 +1,163 @@
 /-
-Reference semantics ("the simplest possible spec"), written from the property statements, not from
-the generator: filter rows, group by dimension values, aggregate each metric's expression over each
-group, filter on metric values, order, slice.  Core Lean only.
+Reference semantics of a single-model query ("the simplest possible spec"), written from the
+property statement: keep the rows satisfying the row-level filters, form one group per distinct
+combination of the requested dimension values, evaluate each metric's aggregation of its
+expression over the rows of the group that satisfy the metric's own filters, then keep the groups
+satisfying the metric-value filters.  Core Lean only.
+`{model}.x` means column `x` of the model's own table (Defs.replacePlaceholder).
 -/
 import SideVerif.Layer.Defs
+import SideVerif.Sql.Flat
 namespace SideVerif.Spec
 open Sql Cal SideVerif
 
-/-- an expression of the model's own table: `{model}.x`, `model.x` and `x` all mean column `x` -/
-def bare (m : SModel) (c : String) : String :=
-  if c.startsWith "{model}." then (c.drop 8).toString
-  else if c.startsWith (m.name ++ ".") then (c.drop (m.name.length + 1)).toString
-  else c
+/-- the value of dimension `d` as an expression over a base row (declared base granularity applied) -/
+def dimValueExpr (m : SModel) (d : Dim) : Expr :=
+  let e := d.sqlExpr.mapCols (replacePlaceholder m)
+  match d.type == "time", d.granularity with
+  | true, some g => .dateTrunc g e
+  | _, _ => e
 
-/-- value of dimension `d` on a base row (declared base granularity applied) -/
-def dimValue (m : SModel) (d : Dim) (r : Row) : Val :=
-  let v := (d.sqlExpr.mapCols (bare m)).eval r
-  match d.type == "time", d.granularity, v with
-  | true, some g, .ts t => .ts (trunc g t)
-  | _, _, v => v
-
-/-- value of a requested dimension reference `model.dim[__gran]` on a base row -/
-def dimRefValue (m : SModel) (ref : String) (r : Row) : Val :=
+/-- the value of a requested reference `model.dim[__gran]`: with a granularity, the start of the
+enclosing period of the dimension's (untruncated) value -/
+def dimRefExpr (m : SModel) (ref : String) : Expr :=
   let (base, gran) := parseDimRef ref
   match split2 base with
   | some (_, dn) =>
     (match m.dim? dn with
      | some d =>
        (match gran.bind Gran.ofStr? with
-        | some g => (match (d.sqlExpr.mapCols (bare m)).eval r with | .ts t => .ts (trunc g t) | _ => .null)
-        | none => dimValue m d r)
-     | none => .null)
-  | none => .null
+        | some g => .dateTrunc g (d.sqlExpr.mapCols (replacePlaceholder m))
+        | none => dimValueExpr m d)
+     | none => .lit .null)
+  | none => .lit .null
 
-/-- a row-level query filter: `model.field` is the dimension's value when `field` is a dimension,
-otherwise the raw column -/
-def filterRow (m : SModel) (r : Row) : Row :=
-  r ++ r.map (fun (k, v) => (m.name ++ "." ++ k, v))
+def Expr.subst (σ : String → Expr) : Expr → Expr
+  | .col n => σ n
+  | .lit v => .lit v
+  | .bin op a b => .bin op (Expr.subst σ a) (Expr.subst σ b)
+  | .not a => .not (Expr.subst σ a)
+  | .isNull a n => .isNull (Expr.subst σ a) n
+  | .inList a vs n => .inList (Expr.subst σ a) vs n
+  | .between a lo hi => .between (Expr.subst σ a) (Expr.subst σ lo) (Expr.subst σ hi)
+  | .like a p => .like (Expr.subst σ a) p
+  | .case c a b => .case (Expr.subst σ c) (Expr.subst σ a) (Expr.subst σ b)
+  | .coalesce a b => .coalesce (Expr.subst σ a) (Expr.subst σ b)
+  | .nullif a b => .nullif (Expr.subst σ a) (Expr.subst σ b)
+  | .dateTrunc g a => .dateTrunc g (Expr.subst σ a)
+  | .keyConcat cols => .keyConcat cols
+  | .paren a => .paren (Expr.subst σ a)
 
-def rowFilterHolds (m : SModel) (f : Expr) (r : Row) : Bool :=
-  let env : Row := (m.dims.map fun d => (m.name ++ "." ++ d.name, dimValue m d r)) ++ filterRow m r
-  (f.eval env).isTrue
+/-- meaning of a column reference inside a query filter: `model.field` is the dimension's value when
+`field` is a dimension of the model, otherwise the raw column `field` -/
+def resolve (m : SModel) (c : String) : Expr :=
+  match split2 c with
+  | some (t, n) =>
+    if t == m.name then
+      (match m.dim? n with
+       | some d => dimValueExpr m d
+       | none => .col n)
+    else .col c
+  | none => .col c
 
 def isMetricFilter (m : SModel) (f : Expr) : Bool :=
   f.cols.any fun c => match split2 c with
     | some (t, n) => t == m.name && (m.measure? n).isSome
     | none => false
 
+def rowFilters (m : SModel) (q : Query) : List Expr :=
+  ((q.filters.flatMap Expr.conjuncts).filter fun f => !isMetricFilter m f).map (Expr.subst (resolve m))
+
+def countsRows (ms : Measure) : Bool := ms.agg == .count && (ms.sql.isNone || ms.star)
+def countsKeys (ms : Measure) : Bool := ms.agg == .countDistinct && ms.sql.isNone
+
+def measureExpr (m : SModel) (ms : Measure) : Expr :=
+  (ms.sql.getD (.col ms.name)).mapCols (replacePlaceholder m)
+
+def passesMetricFilters (ms : Measure) (r : Row) : Bool :=
+  ms.filters.all fun f => ((f.mapCols stripPlaceholder).eval r).isTrue
+
 /-- value of a simple metric over a group of base rows -/
 def metricValue (m : SModel) (ms : Measure) (g : List Row) : Val :=
-  let g' := g.filter fun r => ms.filters.all fun f => ((f.mapCols (bare m)).eval r).isTrue
-  if ms.agg == .count && (ms.sql.isNone || ms.star) then .num g'.length
-  else if ms.agg == .countDistinct && ms.sql.isNone then
-    .num ((g'.map fun r => m.pk.map r.get).eraseDups.length)
-  else ms.agg.apply (g'.map fun r => ((ms.sql.getD (.col ms.name)).mapCols (bare m)).eval r)
+  let g' := g.filter (passesMetricFilters ms)
+  if countsRows ms then .num g'.length                                     -- COUNT(*)
+  else if countsKeys ms then .num (dedup (g'.map fun r => m.pk.map r.get)).length   -- distinct primary keys
+  else ms.agg.apply (g'.map (measureExpr m ms).eval)
 
-/-- names of the output columns -/
-def outNames (m : SModel) (q : Query) : List String :=
-  let one (full short : String) : String :=
-    (q.aliases.lookup full).getD short
-  (q.dims.map fun ref => one ref ((splitFirstDot ref).map (·.2) |>.getD ref)) ++
-  (q.metrics.map fun r => one r ((splitFirstDot r).map (·.2) |>.getD r))
+/-- effective dimensions: the default time dimension is added exactly when a metric of the model is
+requested and no time dimension of the model is -/
+def effectiveDims (m : SModel) (q : Query) : List String :=
+  let hasTime := q.dims.any fun ref =>
+    match split2 (parseDimRef ref).1 with
+    | some (t, dn) => t == m.name && (match m.dim? dn with | some d => d.type == "time" | none => false)
+    | none => false
+  let hasMetric := q.metrics.any fun r => match split2 r with | some (t, _) => t == m.name | none => false
+  match m.defaultTimeDim with
+  | some td =>
+    if hasMetric && !hasTime then
+      q.dims ++ [m.name ++ "." ++ td ++ (match m.defaultGrain with | some g => "__" ++ g | none => "")]
+    else q.dims
+  | none => q.dims
 
-/-- rows before ORDER BY / LIMIT / OFFSET, as value lists in output-column order -/
-def body (m : SModel) (q : Query) (rows : List Row) : List (List Val) :=
-  let rowF := (q.filters.flatMap Expr.conjuncts).filter fun f => !isMetricFilter m f
-  let metF := (q.filters.flatMap Expr.conjuncts).filter (isMetricFilter m)
-  let kept := rows.filter fun r => rowF.all fun f => rowFilterHolds m f r
-  let measures := q.metrics.filterMap fun r => (split2 r).bind fun (_, x) => m.measure? x
-  if q.ungrouped then
-    kept.map fun r => (q.dims.map fun ref => dimRefValue m ref r) ++
-      (measures.map fun ms => metricValue m ms [r] |> fun _ =>
-        -- ungrouped: the raw (filtered) measure expression of that row
-        let ok := ms.filters.all fun f => ((f.mapCols (bare m)).eval r).isTrue
-        if ms.agg == .count && (ms.sql.isNone || ms.star) then (if ok then .num 1 else .null)
-        else if ms.agg == .countDistinct && ms.sql.isNone then
-          (if ok then (match m.pk with | [k] => r.get k | ks => evalKeyConcat r ks) else .null)
-        else if ok then ((ms.sql.getD (.col ms.name)).mapCols (bare m)).eval r else .null)
-  else
-    let groups : List (List Val × List Row) :=
-      if q.dims.isEmpty then [([], kept)]
-      else groupBy (fun r => q.dims.map fun ref => dimRefValue m ref r) kept
-    let out := groups.map fun (k, g) => (k, measures.map fun ms => metricValue m ms g)
-    let names := q.metrics.filterMap fun r => (split2 r).map (·.2)
-    (out.filter fun (_, mv) =>
-      metF.all fun f => (f.eval ((names.zip mv).map fun (n, v) => (m.name ++ "." ++ n, v))).isTrue).map
-      fun (k, mv) => k ++ mv
+def outName (q : Query) (ref : String) : String :=
+  (q.aliases.lookup ref).getD ((splitFirstDot ref).map (·.2) |>.getD ref)
+
+def measuresOf (m : SModel) (q : Query) : List (Measure × String) :=
+  q.metrics.filterMap fun r => (split2 r).bind fun (_, x) => (m.measure? x).map fun ms => (ms, outName q r)
+
+/-- rows of a grouped query before metric-value filters / ORDER BY / LIMIT / OFFSET -/
+def grouped (m : SModel) (q : Query) (rows : List Row) : List Row :=
+  let dims := effectiveDims m q
+  let kept := rows.filter (allTrue (rowFilters m q))
+  let groups : List (List Val × List Row) :=
+    if dims.isEmpty then [([], kept)]
+    else groupBy (fun r => dims.map fun ref => (dimRefExpr m ref).eval r) kept
+  groups.map fun (k, g) =>
+    (dims.map (outName q)).zip k ++ (measuresOf m q).map fun (ms, n) => (n, metricValue m ms g)
+
+/-- the same query as a flat query (used to state coverage) -/
+def flatAgg (m : SModel) (ms : Measure) (name : String) : FlatAgg :=
+  let cond : Option Expr := match ms.filters with
+    | [] => none
+    | f :: fs => some (fs.foldl (fun acc g => Expr.bin .and acc (g.mapCols stripPlaceholder)) (f.mapCols stripPlaceholder))
+  if countsRows ms then ⟨.count, cond, .lit (.num 1), name⟩
+  else if countsKeys ms then ⟨.countDistinct, cond, (match m.pk with | [k] => .col k | ks => .keyConcat ks), name⟩
+  else ⟨ms.agg, cond, measureExpr m ms, name⟩
+
+def flat (m : SModel) (q : Query) : FlatQuery :=
+  { filt := rowFilters m q,
+    keys := (effectiveDims m q).map fun ref => ⟨dimRefExpr m ref, outName q ref⟩,
+    aggs := (measuresOf m q).map fun (ms, n) => flatAgg m ms n }
+
+/-- metric-value filters, ORDER BY, OFFSET, LIMIT on top of `grouped` -/
+def metricFilters (m : SModel) (q : Query) : List Expr :=
+  (q.filters.flatMap Expr.conjuncts).filter (isMetricFilter m)
+
+def finish (m : SModel) (q : Query) (rows : List Row) : List Row :=
+  let kept := rows.filter fun out =>
+    (metricFilters m q).all fun f =>
+      ((f.mapCols fun c => match split2 c with
+          | some (t, n) => if t == m.name then outName q c |> fun _ => n else c
+          | none => c).eval out).isTrue
+  let sorted := if q.orderBy.isEmpty then kept
+    else kept.mergeSort (rowLe (q.orderBy.map fun (f, d) => ((splitFirstDot f).map (·.2) |>.getD f, d)))
+  sliceRows q.offset q.limit sorted
+
+/-- ungrouped query: one row per surviving base row -/
+def ungrouped (m : SModel) (q : Query) (rows : List Row) : List Row :=
+  (rows.filter (allTrue (rowFilters m q))).map fun r =>
+    ((effectiveDims m q).map fun ref => (outName q ref, (dimRefExpr m ref).eval r)) ++
+    (measuresOf m q).map fun (ms, n) =>
+      (n, if passesMetricFilters ms r then
+            (if countsRows ms then .num 1
+             else if countsKeys ms then (match m.pk with | [k] => r.get k | ks => evalKeyConcat r ks)
+             else (measureExpr m ms).eval r)
+          else .null)
+
+def body (m : SModel) (q : Query) (rows : List Row) : List Row :=
+  if q.ungrouped then ungrouped m q rows else finish m { q with orderBy := [], limit := none, offset := none } (grouped m q rows)
+
+def columns (m : SModel) (q : Query) : List String :=
+  (effectiveDims m q).map (outName q) ++ (measuresOf m q).map (·.2)
 
 end SideVerif.Spec
